@@ -199,6 +199,8 @@ def isinstance_model(ev, v, t):
         for tg in ("str", "int", "float", "array", "callable", "dataframe", "list", "dict"):
             if tg in v.tags:
                 kind = {"array": "ndarray", "callable": "function", "dataframe": "DataFrame"}.get(tg, tg)
+    elif isinstance(v, App) and (v.fn in ("attr:index", "attr:columns", "attr:loc", "attr:iloc") or v.fn.startswith("m:")):
+        kind = None   # a pandas Index / frame-method result: its concrete class (RangeIndex, MultiIndex, ...) is not known
     elif isinstance(v, (Num, App)):
         kind = "ndarray"
     if kind is None:
@@ -977,7 +979,7 @@ METHOD_PURE = {"sum", "std", "mean", "min", "max", "round", "any", "all", "flatt
                "to_markdown", "groupby", "keys", "items", "lower", "upper", "strip", "format", "startswith", "endswith",
                "ngroup", "itertuples", "unique", "isin", "dot", "clip", "repeat", "take", "conj", "prod", "var", "ptp",
                "searchsorted", "from_arrays", "from_tuples", "drop_duplicates", "sort_values", "to_list", "sort_index", "set_index", "from_frame", "droplevel",
-               "agg", "transform", "head", "tail", "rename", "assign", "merge", "join_", "stack", "unstack", "pivot", "value_counts", "nunique", "duplicated", "get_loc", "isnull", "notnull", "dropna", "fillna", "map"}
+               "agg", "transform", "head", "tail", "rename", "assign", "merge", "join_", "stack", "unstack", "pivot", "value_counts", "nunique", "duplicated", "get_loc", "isnull", "notnull", "dropna", "fillna", "map", "set_axis"}
 
 
 NP_METHOD_FORMS = {"sum", "mean", "min", "max", "any", "all", "prod", "argmin", "argmax", "argsort", "nonzero", "cumsum", "std",
